@@ -26,7 +26,7 @@ CLAIMED.update({
     "C01": _trace("TLA+ semantics of segments/selectors (Eval.tla) evaluated by TLC on recorded find() calls (trace validation)",
                   "Every recorded find() of a filter-free query is re-computed by TLC from the query TEXT (Syntax.tla parser) and the document (Eval.tla) and must be equal node by node (location, order, duplicates), value-at-location and normalized path included. Inputs: all trees of height<=2/width<=2 x a fixed battery, plus seeded random queries/documents (nasty names, all spellings).", "4 (C01)"),
     "C02": _trace("TLA+ filter semantics (Eval!Test) evaluated by TLC on recorded find() calls (trace validation)",
-                  "Filter queries built from ~55 atoms (existence tests on '@'/'$' queries, comparisons, calls, nested filters to depth 3) under ! && || and parentheses, on arrays/objects with 18 child kinds (0,false,'',null,[],{},...) and on scalars, plus seeded random filter queries; every result validated by TLC.", "4 (C02)"),
+                  "Filter queries built from ~64 atoms (existence tests on '@'/'$' queries, comparisons, calls, nested filters to depth 3) under ! && || and parentheses, on arrays/objects with 21 child kinds (0,false,'',null,[],{},...) and on scalars, plus seeded random filter queries; every result validated by TLC.", "4 (C02)"),
     "C03": _trace("TLA+ recursive-descent transcription of the RFC 9535 ABNF + typing (Syntax/Typing.tla); compile() outcomes trace-validated by TLC",
                   "TLC parses every candidate text itself and decides Valid; a valid text that compile() rejects is a violation. Candidates: seeds, repository test queries, seeded generator output with every optional lexical form (blank space at every S, both quotes, every escape form, shorthand/bracket, number spellings, non-BMP names); every sentence of the ABNF derivation machine (Deriv.tla, T3); the valid ones among all unit texts enumerated by MC_Parser.tla, where TLC also checks T15 (the implementation-shaped lexer/stream/parser model accepts them and builds the query RFC 9535 assigns).", "4 (C03)"),
     "C04": _trace("TLA+ parser (Syntax.tla) as the membership oracle; compile() outcomes on enumerated short strings, lexeme sequences and single-edit neighbours trace-validated by TLC",
